@@ -213,6 +213,12 @@ class Check:
                     break
             safe = "".join(c if c.isalnum() else "_" for c in sig)[:60]
             path = os.path.join(OUT, "replays", "%s-%d-%s.json" % (self.prop, self.seed, safe))
+            if not ok:
+                # the failure may depend on what EARLIER RUNS left behind in the process (module-level / class-level state):
+                # replay the run together with its predecessors in the block, then minimise the set of predecessors
+                rr = self.cross_run_replay(build, tmpdir, cands[0], str(gi))
+                if rr is not None:
+                    rec, ok = rr, True
             rec["reproduced_in_fresh_process"] = ok
             with open(path, "w") as fh:
                 json.dump(rec, fh, indent=1)
@@ -220,7 +226,7 @@ class Check:
                 self.say("HARNESS-ERROR: replay %s does not reproduce in a fresh process" % path)
                 raise common.HarnessError("non-reproducible failure %s" % sig)
             fop = failing_op_of(rec["ops"], rec["expected_violation"]["step"])
-            k = match_known(self.prop, rec["expected_violation"], fop)
+            k = match_known(self.prop, rec["expected_violation"], fop) if rec.get("kind") != "runs" else None
             if k is not None:
                 nknown += 1
                 self.say("KNOWN-FINDING: property=%s %s (replay=%s)" % (self.prop, k.get("what", sig), path))
@@ -230,6 +236,52 @@ class Check:
                 self.say("  oracle=%s step=%s ops=%d detail=%s" % (rec["expected_violation"]["oracle"], rec["expected_violation"]["step"],
                                                                   len(rec["ops"]), rec["expected_violation"]["detail"][:300]))
         return nviol, nknown
+
+    def runs_reproduce(self, build, tmpdir, runs, hashseed, oracle, tag):
+        try:
+            out = call_worker(build, {"mode": "replay_runs", "engine": self.engine, "prop": self.prop, "tier": self.tier, "verif_seed": self.seed,
+                                      "runs": runs, "hang_s": 300}, hashseed, 330, tmpdir, "rr-" + tag)
+        except (WorkerCrash, common.HarnessError):
+            return None
+        v = out.get("violation")
+        return v if (v is not None and v["oracle"] == oracle) else None
+
+    def cross_run_replay(self, build, tmpdir, f, tag):
+        run = f.get("run")
+        if run is None:
+            return None
+        block = self.plan["block"]
+        start = (run // block) * block
+        prefix = list(range(start, run))
+        n = [0]
+
+        def test(pre):
+            n[0] += 1
+            if n[0] > 24:
+                return False
+            return self.runs_reproduce(build, tmpdir, list(pre) + [run], f["hashseed"], f["oracle"], "%s_%d" % (tag, n[0])) is not None
+        if not test(prefix):
+            return None
+        from .minimise import ddmin
+        # cheap first: the immediate predecessors
+        keep = prefix
+        for k in (1, 2, 4, 8, 16):
+            if k < len(prefix) and test(prefix[-k:]):
+                keep = prefix[-k:]
+                break
+        if len(keep) > 1 and len(keep) <= 16:
+            keep = ddmin(keep, test)
+        v = self.runs_reproduce(build, tmpdir, keep + [run], f["hashseed"], f["oracle"], tag + "_final")
+        if v is None:
+            keep = prefix
+            v = self.runs_reproduce(build, tmpdir, keep + [run], f["hashseed"], f["oracle"], tag + "_full")
+            if v is None:
+                return None
+        self.say("note: this failure needs state left behind by earlier runs in the same process: %d predecessor run(s) kept" % len(keep))
+        return {"kind": "runs", "property": self.prop, "engine": self.engine, "build": self.variant, "hashseed": f["hashseed"], "verif_seed": self.seed,
+                "tier": self.tier, "runs": keep + [run], "cfg": v["cfg"], "ops": v["ops"],
+                "expected_violation": {"oracle": v["oracle"], "step": v["step"], "detail": v["detail"]},
+                "note": "replay = execute the listed run indices in one fresh process, each regenerated from (verif_seed, property, index); the violation is judged on the last one"}
 
     def handle_crashes(self, build, tmpdir, agg):
         """A worker that died: in the sanitizer build this is the violation."""
@@ -456,7 +508,11 @@ def replay_file(path):
     try:
         with Build(rec.get("build", "sim")) as build:
             try:
-                out = call_worker(build, {"mode": "replay", "replay": rec, "hang_s": 120}, rec.get("hashseed", 0), 150, tmpdir, "rp")
+                if rec.get("kind") == "runs":
+                    out = call_worker(build, {"mode": "replay_runs", "engine": rec["engine"], "prop": rec["property"], "tier": rec.get("tier", "quick"),
+                                              "verif_seed": rec["verif_seed"], "runs": rec["runs"], "hang_s": 300}, rec.get("hashseed", 0), 330, tmpdir, "rp")
+                else:
+                    out = call_worker(build, {"mode": "replay", "replay": rec, "hang_s": 120}, rec.get("hashseed", 0), 150, tmpdir, "rp")
             except WorkerCrash as e:
                 class _C:
                     crash_is_violation = rec.get("property") == "C17"
